@@ -21,7 +21,7 @@ discharged by z3 from these per-step facts.
 import z3
 
 from .common import *  # noqa
-from engine import fx
+from engine import fx, xcheck
 
 CLF = ("var", "clf")
 MUTATORS = ("clf._update_weights", "clf.fit", "clf.set_params", "np.copyto", "clf.optimiser_.update_params")
@@ -265,7 +265,12 @@ def induction_lemmas():
         s.add(*assm)
         s.add(z3.Not(goal))
         r = s.check()
-        obs.append(Ob(f"_path:lemma: {name}", PROVED if r == z3.unsat else (REFUTED if r == z3.sat else UNDECIDED), "z3", "P", {}, fn=fn))
+        det, st = {}, PROVED if r == z3.unsat else (REFUTED if r == z3.sat else UNDECIDED)
+        if r == z3.unsat:
+            det["xcheck"] = xcheck.second_opinion(s)
+            if det["xcheck"].startswith("DISAGREE"):
+                st = UNDECIDED
+        obs.append(Ob(f"_path:lemma: {name}", st, "z3", "P", det, fn=fn))
     la, ln, lg, lp, t = z3.Ints("len_alphas len_n_features len_geminis len_penalties t")
     inv = z3.And(la == t, ln == t, lg == t, lp == t, t >= 0)
     lemma("equal lengths hold initially (all empty)", [la == 0, ln == 0, lg == 0, lp == 0, t == 0], inv)
